@@ -29,7 +29,7 @@ def rule_r1(chk, facts):
             for s_, d_, l in f.edges():
                 if l is not None and l[0] == 'T' and f.guarded(first[0], first[1], lambda l2, l=l: l2 is l)[0]:
                     guards.append(nocast(l[1]))
-            written = {strip(m[2]) for b2, i2, l2, m in f.nodes() if is_assign(m) or is_incdec(m)}
+            written = written_after(f, first[0], first[1])
 
             def eok(s_, d_, l):
                 if l is not None and l[0] == 'F' and nocast(l[1]) in guards and \
